@@ -197,6 +197,22 @@ func (m *seqSearch) Go(b *board.Board, opts ...search.Option) (Score, move.Move,
 func (m *seqSearch) Clear()       {}
 func (m *seqSearch) ResizeTT(int) {}
 
+var firsts = []string{"go movetime 777777", "go wtime 1 btime 1 winc 999 binc 999", "go depth 1", "go wtime 999999999 btime 999999999", "go movetime 1"}
+
+func seqOf(first string, wt, bt, wi, bi, mt int64) *Seq {
+	second := "go"
+	if mt > 0 {
+		second += fmt.Sprintf(" movetime %d", mt)
+	}
+	second += fmt.Sprintf(" wtime %d btime %d winc %d binc %d", wt, bt, wi, bi)
+	softs := driverSession([]string{first, second})
+	sq := Seq{First: first, N: len(softs)}
+	if len(softs) == 2 {
+		sq.Got = limb(softs[1])
+	}
+	return &sq
+}
+
 // driverSession: several `go` commands through ONE driver, each sent after the previous one was answered (a
 // command sent while a search runs belongs to that search); what the search is handed for each of them
 func driverSession(gos []string) []int64 {
@@ -282,18 +298,7 @@ func main() {
 			e.Drv = &d
 			if stm == 0 {
 				// the same clock as the second go of a session: what came first must not matter
-				first := []string{"go movetime 777777", "go wtime 1 btime 1 winc 999 binc 999", "go depth 1", "go wtime 999999999 btime 999999999", "go movetime 1"}[n%5]
-				second := "go"
-				if mt > 0 {
-					second += fmt.Sprintf(" movetime %d", mt)
-				}
-				second += fmt.Sprintf(" wtime %d btime %d winc %d binc %d", wt, bt, wi, bi)
-				softs := driverSession([]string{first, second})
-				sq := Seq{First: first, N: len(softs)}
-				if len(softs) == 2 {
-					sq.Got = limb(softs[1])
-				}
-				e.Seq = &sq
+				e.Seq = seqOf(firsts[n%len(firsts)], wt, bt, wi, bi, mt)
 			}
 		}
 		if err := enc.Encode(e); err != nil {
@@ -353,6 +358,12 @@ func main() {
 		d := limb(driverSoft(wv, bv, wiv, biv, mtv, st))
 		e.Drv = &d
 		enc.Encode(e)
+		if st == 0 {
+			for _, f := range firsts {
+				e.Seq = seqOf(f, wv, bv, wiv, biv, mtv)
+				enc.Encode(e)
+			}
+		}
 		return
 	}
 	// dense boundary grid around the margin and the clamp break-points
